@@ -20,7 +20,7 @@ for p in props:
         "engine": "vcheck",
         "level_claimed": {"category": "other", "text": c['text'], "design_ref": c.get('design_ref', 'DESIGN.md §4 ' + pid)},
         "level_note": c['note'],
-        "technique": c['technique'],
+        "technique": c['technique'] + "; the complete list of rules with their instance counts on the current tree is in the evidence file (coverage.instances_per_rule) and in DESIGN.md §3/§4",
     })
 m = {
     "version": 1,
